@@ -28,7 +28,7 @@ func readForms(w *World) c14Snap {
 	ctx := w.Ctx()
 	k := w.node().app.StorageKeeper
 	s := c14Snap{stor: readStor(w), attest: map[string]formRec{}, report: map[string]formRec{}}
-	p := k.GetParams(ctx)
+	p := w.storageParams()
 	s.minPass, s.size = p.AttestMinToPass, p.AttestFormSize
 	conv := func(as []*storagetypes.Attestation) formRec {
 		r := formRec{signed: map[string]bool{}}
